@@ -187,6 +187,16 @@ def run_batch(pid, tier, seed, workers=16, max_cases=None, dump_sigs=None):
     t0 = time.time()
     wall_cap = prop.BUDGET[tier].get("wall_s", 600)
     cases = []
+    # simulated hosts left behind by workers that were stopped at the wall-clock cap or killed from outside:
+    # a host lives for seconds, so anything older than three hours belongs to nobody
+    try:
+        import shutil
+        for fn in os.listdir(core.SHM):
+            dp = os.path.join(core.SHM, fn)
+            if t0 - os.lstat(dp).st_mtime > 3 * 3600:
+                shutil.rmtree(dp, ignore_errors=True)
+    except OSError:
+        pass
     # regression cases: minimised cases that failed before a defect was repaired in /repo
     # (known_findings.json "fixed"); they run first in every tier and must hold now
     rdir = os.path.join(VERIF, "replays", "regress")
